@@ -1160,9 +1160,9 @@ func loopAppendedNonEmpty(at ssa.Instruction, list ssa.Value) bool {
 	if !ok || bo.Op != token.LSS {
 		return false
 	}
-	x, ok := lenOf(bo.Y)
-	if !ok {
-		return false
+	if x, ok := lenOf(bo.Y); ok {
+		return nonEmptyGuard(at, x)
 	}
-	return nonEmptyGuard(at, x)
+	// a counting loop `i < n` with n known to be non-zero
+	return nonZeroAt(at, bo.Y, 0)
 }
